@@ -26,6 +26,60 @@ SIZES = 'fim/slivers/data/instance_sizes.json'
 COMPS = 'fim/slivers/data/component_catalog.json'
 
 
+def interface_kind_dispatch(prog):
+    """{component type name: interface type name} as generate_component assigns them (shared with C07: every generated
+    interface gets a type of the published vocabulary)."""
+    ccat = prog.cls(CCAT)
+    cmod = ccat.module
+    gc = ccat.methods.get('generate_component')
+    if gc is None:
+        raise AnalysisError('generate_component vanished')
+    # interface kind dispatch covers the catalogue types that have interfaces: the argument of set_type on the generated
+    # interfaces, evaluated under the assumption "the component is of type T" (if/elif chains, tables, temporaries alike)
+    disp = {}
+    gci = inline(prog, ccat, gc, exclude=('__read_catalog',))
+    genv_ = {k_: v_ for k_, v_ in local_env(gci).items() if isinstance(v_, (ast.Name, ast.Attribute, ast.Subscript)) or
+             (isinstance(v_, ast.Call) and call_name(v_) in ('get_type',))}
+    fold_c = lambda e_: prog.const_eval(e_, cmod, ccat)
+    type_exprs = sorted({ctext(x) for x in ast.walk(gci) if isinstance(x, ast.Call) and call_name(x) == 'get_type' and not x.args})
+    ctypes = prog.enum_members('fim.slivers.attached_components:ComponentType')
+    iloops = [n for n in walk_no_nested(gci) if isinstance(n, ast.For) and 'interfaces_dict' in ast.unparse(n.iter)]
+    st_calls = [c for l_ in iloops for c in ast.walk(l_) if isinstance(c, ast.Call) and call_name(c) == 'set_type' and c.args]
+    for T in ctypes:
+        bind = {te: prog.const_eval(ast.parse(f'ComponentType.{T}', mode='eval').body, cmod, ccat) for te in type_exprs}
+        kinds = set()
+        for c in st_calls:
+            _, conds_ = _enclosing(c, gci)
+            try:
+                holds = True
+                for n_ in conds_:
+                    n2 = canon(expand(n_, genv_))
+                    names_ = [x for x in ast.walk(n2) if isinstance(x, ast.Name)]
+                    if any(ctext(x) in bind for x in ast.walk(n2)):
+                        if not eval_test(n2, bind, fold_c):
+                            holds = False
+                            break
+                    elif isinstance(n2, ast.Compare) and isinstance(n2.left, ast.Name) and isinstance(n2.ops[0], (ast.Is, ast.IsNot)):
+                        # `port_type is not None` on a temporary: evaluate the temporary under the assumption
+                        try:
+                            v_ = value_under(n2.left, bind, fold_c, genv_, gci)
+                            if (v_ is None) != isinstance(n2.ops[0], ast.Is):
+                                holds = False
+                                break
+                        except Unknown:
+                            pass
+                if not holds:
+                    continue
+                v = value_under(c.args[0], bind, fold_c, genv_, gci)
+                if v is not None:
+                    kinds.add(getattr(v, 'name', str(v)))
+            except Unknown:
+                kinds.add('?')
+        if kinds:
+            disp[T] = sorted(kinds)[0] if len(kinds) == 1 else '|'.join(sorted(kinds))
+    return disp
+
+
 def run(prog, rep):
     rep.extra['explanation'] = (
         'The quantifier is over configurations, so the two catalogue files are analysed as source: every entry is '
@@ -340,49 +394,7 @@ def run(prog, rep):
                 rep.violation('R3', loc(cmod, u), gq, f'{norm(u)} nested under "{other}"',
                               f'{pname} is only applied when the other list is supplied too: a caller who passes '
                               f'{pname} alone has it silently ignored')
-    # interface kind dispatch covers the catalogue types that have interfaces: the argument of set_type on the generated
-    # interfaces, evaluated under the assumption "the component is of type T" (if/elif chains, tables, temporaries alike)
-    disp = {}
-    gci = inline(prog, ccat, gc, exclude=('__read_catalog',))
-    genv_ = {k_: v_ for k_, v_ in local_env(gci).items() if isinstance(v_, (ast.Name, ast.Attribute, ast.Subscript)) or
-             (isinstance(v_, ast.Call) and call_name(v_) in ('get_type',))}
-    fold_c = lambda e_: prog.const_eval(e_, cmod, ccat)
-    type_exprs = sorted({ctext(x) for x in ast.walk(gci) if isinstance(x, ast.Call) and call_name(x) == 'get_type' and not x.args})
-    ctypes = prog.enum_members('fim.slivers.attached_components:ComponentType')
-    iloops = [n for n in walk_no_nested(gci) if isinstance(n, ast.For) and 'interfaces_dict' in ast.unparse(n.iter)]
-    st_calls = [c for l_ in iloops for c in ast.walk(l_) if isinstance(c, ast.Call) and call_name(c) == 'set_type' and c.args]
-    for T in ctypes:
-        bind = {te: prog.const_eval(ast.parse(f'ComponentType.{T}', mode='eval').body, cmod, ccat) for te in type_exprs}
-        kinds = set()
-        for c in st_calls:
-            _, conds_ = _enclosing(c, gci)
-            try:
-                holds = True
-                for n_ in conds_:
-                    n2 = canon(expand(n_, genv_))
-                    names_ = [x for x in ast.walk(n2) if isinstance(x, ast.Name)]
-                    if any(ctext(x) in bind for x in ast.walk(n2)):
-                        if not eval_test(n2, bind, fold_c):
-                            holds = False
-                            break
-                    elif isinstance(n2, ast.Compare) and isinstance(n2.left, ast.Name) and isinstance(n2.ops[0], (ast.Is, ast.IsNot)):
-                        # `port_type is not None` on a temporary: evaluate the temporary under the assumption
-                        try:
-                            v_ = value_under(n2.left, bind, fold_c, genv_, gci)
-                            if (v_ is None) != isinstance(n2.ops[0], ast.Is):
-                                holds = False
-                                break
-                        except Unknown:
-                            pass
-                if not holds:
-                    continue
-                v = value_under(c.args[0], bind, fold_c, genv_, gci)
-                if v is not None:
-                    kinds.add(getattr(v, 'name', str(v)))
-            except Unknown:
-                kinds.add('?')
-        if kinds:
-            disp[T] = sorted(kinds)[0] if len(kinds) == 1 else '|'.join(sorted(kinds))
+    disp = interface_kind_dispatch(prog)
     rep.instance('R3', f'{gq}: interface kind dispatch {disp}; catalogue types with interfaces {sorted(types_with_ifs)}')
     for t in sorted(types_with_ifs):
         if t not in disp:
